@@ -1018,11 +1018,13 @@ def list_walks(ck, prog):
         if f.file not in files or not prog.is_production(f):
             continue
         heads = {}
+        ends = {}
         for b, i, ev in f.events():
             for lhs, how, rhs in written_lvalues(ev):
                 if is_ref(lhs) and rhs is not None and \
                         is_call(rhs, ('_dbus_list_get_first_link', '_dbus_list_get_last_link')) and rhs['args']:
                     heads.setdefault(lhs.get('id'), set()).add(head_of(rhs['args'][0]))
+                    ends.setdefault(lhs.get('id'), set()).add('first' if rhs['callee'].endswith('first_link') else 'last')
         if not heads:
             continue
         tops = []
@@ -1050,7 +1052,13 @@ def list_walks(ck, prog):
                             continue
                         seen.add(key)
                         n += 1
-                        if h in heads[a['base']['id']]:
+                        want = {'first': 'next', 'last': 'prev'}
+                        dirs = {want[e2] for e2 in ends.get(a['base']['id'], ())}
+                        if h in heads[a['base']['id']] and a['field'] not in dirs and len(dirs) == 1:
+                            r.violation(key + ':direction', f.name, f.file, line,
+                                        '%s starts at the %s link of %s but steps to ->%s: the walk sees one element '
+                                        'only' % (f.name, '/'.join(sorted(ends[a['base']['id']])), h, a['field']))
+                        elif h in heads[a['base']['id']]:
                             r.ok(key)
                         else:
                             r.violation(key, f.name, f.file, line,
